@@ -32,7 +32,7 @@ func (c05) Decode(raw json.RawMessage) (any, error) {
 
 func (c05) Gen(rt *rapid.T, thorough bool) any {
 	s := genAsyncBase(rt, thorough)
-	s.Kind = rapid.SampledFrom([]string{"AsyncLogger", "AsyncLogger", "Logger", "File", "Console", "RollingFile", "RollingFile", "AsyncShared"}).Draw(rt, "kind5")
+	s.Kind = rapid.SampledFrom([]string{"AsyncLogger", "AsyncLogger", "Logger", "File", "Console", "RollingFile", "RollingFile", "AsyncShared", "TwinFile"}).Draw(rt, "kind5")
 	s.Level = rapid.SampledFrom([]string{"", "", "DEBUG"}).Draw(rt, "level5")
 	s.StopTwice = rapid.IntRange(0, 3).Draw(rt, "stop_twice") == 0
 	s.SyncFail = rapid.IntRange(0, 4).Draw(rt, "sync_fail") == 0
@@ -91,10 +91,61 @@ func (c05) Gen(rt *rapid.T, thorough bool) any {
 	return s
 }
 
+// runTwinFile: two file appenders on the same path (two loggers left at the same file name). One is
+// stopped - twice, which appenders tolerate - while the other keeps writing and is stopped later.
+func (c05) runTwinFile(x *Exec, s *AsyncScn) {
+	o := x.Out
+	lay := func() log.Layout { return &log.TextLayout{BaseLayout: log.BaseLayout{FileLineLength: 48}} }
+	a := &log.FileAppender{Layout: lay(), FileDir: "/logs", FileName: "twin.log"}
+	b := &log.FileAppender{Layout: lay(), FileDir: "/logs", FileName: "twin.log"}
+	if err := a.Start(); err != nil {
+		panic("harness: " + err.Error())
+	}
+	if err := b.Start(); err != nil {
+		panic("harness: " + err.Error())
+	}
+	var want []string
+	ok := x.do("twin", func() {
+		w := func(ap *log.FileAppender, id string) {
+			ap.Write([]byte("raw:" + id + ":x\n"))
+			want = append(want, id)
+		}
+		w(a, "t0s0")
+		w(b, "t1s0")
+		a.Stop()
+		if s.StopTwice {
+			a.Stop()
+		}
+		w(b, "t1s1")
+		w(b, "t1s2")
+		b.Stop()
+	})
+	x.Sim.Close()
+	if !ok {
+		o.violate("stop-does-not-return", "C05/stop-does-not-return/TwinFile", "stopping one of two file appenders on the same path did not return: %v", x.clientsStuck())
+		return
+	}
+	o.Reached = true
+	data, _ := x.FS.ReadFile("/logs/twin.log")
+	for _, id := range want {
+		if !strings.Contains(string(data), "raw:"+id+":") {
+			o.violate("not-flushed", "C05/accepted-item-not-in-sink-at-stop/TwinFile", "write %s is not in the file after both appenders were stopped (the other appender on the same path had been stopped%s before)", id, map[bool]string{true: " twice", false: ""}[s.StopTwice])
+			return
+		}
+	}
+	if n := x.FS.OpenCount(); n != 0 {
+		o.violate("descriptor-leak", "C05/descriptor-open-after-stop/TwinFile", "%d descriptors open after both appenders were stopped", n)
+	}
+}
+
 func (c c05) Run(x *Exec, scn any) {
 	s := scn.(*AsyncScn)
 	o := x.Out
 	x.FS.MkdirAll("/logs")
+	if s.Kind == "TwinFile" {
+		c.runTwinFile(x, s)
+		return
+	}
 	if s.Kind == "AsyncLogger" {
 		c.runAsync(x, s)
 		return
